@@ -160,3 +160,44 @@ Proof.
     unfold send_ok_spec. repeat split; auto.
     destruct (J6 Sw); [congruence | auto].
 Qed.
+
+(* ---------- single receiver per side; payload ownership ---------- *)
+Lemma app_length_lt : forall A (l : list A) x, length (l ++ [x]) < length l -> False.
+Proof. intros. rewrite app_length in H. cbn in H. lia. Qed.
+
+Lemma single_recv_proof : forall p st l st', step p st l = Some st' ->
+  (buf_rs st' <> buf_rs st -> (exists pk, buf_rs st' = buf_rs st ++ [pk]) \/
+                              (l = LReq /\ rq_pc st = RQ_Recv /\ exists pk, buf_rs st = pk :: buf_rs st')) /\
+  (buf_sr st' <> buf_sr st -> (exists pk, buf_sr st' = buf_sr st ++ [pk]) \/
+                              (l = LRecvLoop /\ (rl_pc st = RL_Recv \/ rl_pc st = RL_Drain) /\
+                               exists pk, buf_sr st = pk :: buf_sr st')).
+Proof.
+  intros p st l st' H.
+  destruct l; unfold_steps H; step_split H; inv_some; subst;
+  repeat match goal with w : writer |- _ => destruct w; cbn in * end; subst; cbn;
+  split; intro X; try congruence; eauto 8.
+Qed.
+
+Lemma payload_consumed_proof : forall p st id,
+  rl_pc st = RL_Write id ->
+  (* the only move of the receive loop is the write to the pipe ... *)
+  (forall st', step p st LRecvLoop = Some st' ->
+     written st' = id :: written st /\ rl_pc st' = RL_Recv /\ buf_sr st' = buf_sr st) /\
+  step p st LRecvLoopClosed = None /\
+  (* ... and no other label moves the receive loop or consumes from its stream *)
+  (forall l st', step p st l = Some st' -> l <> LRecvLoop ->
+     rl_pc st' = RL_Write id /\ written st' = written st /\
+     (buf_sr st' = buf_sr st \/ exists pk, buf_sr st' = buf_sr st ++ [pk])).
+Proof.
+  intros p st id Hpc. repeat split.
+  - cbn in H. unfold step_recvloop in H. rewrite Hpc in H. inv_some. subst. reflexivity.
+  - cbn in H. unfold step_recvloop in H. rewrite Hpc in H. inv_some. subst. reflexivity.
+  - cbn in H. unfold step_recvloop in H. rewrite Hpc in H. inv_some. subst. reflexivity.
+  - cbn. unfold step_recvloop_closed. rewrite Hpc. reflexivity.
+  - destruct l; try congruence; unfold_steps H; step_split H; inv_some; subst;
+    repeat match goal with w : writer |- _ => destruct w; cbn in * end; subst; cbn; congruence.
+  - destruct l; try congruence; unfold_steps H; step_split H; inv_some; subst;
+    repeat match goal with w : writer |- _ => destruct w; cbn in * end; subst; cbn; congruence.
+  - destruct l; try congruence; unfold_steps H; step_split H; inv_some; subst;
+    repeat match goal with w : writer |- _ => destruct w; cbn in * end; subst; cbn; eauto; congruence.
+Qed.
